@@ -114,19 +114,26 @@ def chain_equal(stats, hyps, code_terms, spec_terms, what, named=None, timeout_s
             if not z3.eq(sa, sb):
                 try:
                     discharge(stats, hyps, a2 == b2, "%s [%d]" % (what, i), named, timeout_s)
-                except Violation:
-                    # the cut variables over-approximate; confirm on the original terms before reporting
+                except (Violation, Inconclusive):
+                    # the cut variables over-approximate (they forget e.g. that a cell is 31 bits wide):
+                    # decide the pair on the original terms; that proof stands on its own
                     discharge(stats, hyps, a == b, "%s [%d, uncut]" % (what, i), named, timeout_s)
-                    raise Inconclusive("%s [%d]: fails with cut variables but holds uncut" % (what, i))
             else:
                 stats.n += 1
                 stats.log.append(("%s [%d]" % (what, i), "equal after rewriting", 0))
         else:
             stats.n += 1
-        cut = z3.Const("cut!%s!%d" % (what[:12].replace(" ", "_"), i), a.sort())
-        subs.append((a, cut))
-        if not z3.eq(a, b):
-            subs.append((b, cut))
+        # cut below a zero-extension so that the cut variable keeps the width information
+        ca, cb = a, b
+        while (z3.is_app_of(ca, z3.Z3_OP_ZERO_EXT) and z3.is_app_of(cb, z3.Z3_OP_ZERO_EXT)
+               and ca.arg(0).sort() == cb.arg(0).sort()):
+            ca, cb = ca.arg(0), cb.arg(0)
+        if z3.is_const(ca) and ca.decl().kind() == z3.Z3_OP_UNINTERPRETED:
+            continue
+        cut = z3.Const("cut!%s!%d" % (what[:12].replace(" ", "_"), i), ca.sort())
+        subs.append((ca, cut))
+        if not z3.eq(ca, cb):
+            subs.append((cb, cut))
 
 
 def check_panics(stats, ctx, named=None, timeout_s=30, allow=None):
@@ -135,6 +142,25 @@ def check_panics(stats, ctx, named=None, timeout_s=30, allow=None):
         if allow and allow(msg, where):
             continue
         discharge(stats, ctx.facts + pc, cond, "no panic at %s: %s" % (where, msg[:60]), named, timeout_s)
+
+
+def term_vars(terms):
+    """names of the uninterpreted constants occurring in the given terms (memoised DAG walk)"""
+    seen, out, stack = set(), set(), list(terms)
+    while stack:
+        t = stack.pop()
+        i = t.get_id()
+        if i in seen:
+            continue
+        seen.add(i)
+        if z3.is_const(t):
+            if t.decl().kind() == z3.Z3_OP_UNINTERPRETED:
+                out.add(str(t))
+        elif z3.is_app(t):
+            stack.extend(t.children())
+        elif z3.is_quantifier(t):
+            stack.append(t.body())
+    return out
 
 
 def live_paths(paths):
